@@ -167,7 +167,7 @@ fn mutate(rng: &mut StdRng, mut d: Vec<u8>, other: &[u8]) -> (Vec<u8>, &'static 
 
 pub fn gen_case(seed: u64, idx: u64) -> Case {
     let mut rng = StdRng::seed_from_u64(seed.wrapping_mul(0x9E37_79B9_7F4A_7C15) ^ idx.wrapping_mul(0xD1B5_4A32_D192_ED03));
-    let fam = idx % 10;
+    let fam = idx % 11;
     let apis = ["lzma", "lzma2", "xz", "raw-lzma", "raw-lzma2", "stream"];
     let mut c = Case { api: String::new(), data: vec![], opt: Opt::ReadFromHeader, memlimit: None, raw: None, cuts: vec![], family: String::new() };
     match fam {
@@ -250,6 +250,49 @@ pub fn gen_case(seed: u64, idx: u64) -> Case {
             c.data = d;
             c.api = ["lzma", "stream"][rng.gen_range(0..2)].to_string();
             c.family = "huge-header".into();
+        }
+        10 => {
+            // LZMA2 sequences that the format forbids but a decoder will meet: state carried over a dictionary
+            // reset (uncompressed reset chunk, then an LZMA chunk without state reset), chunks without properties,
+            // so that rep distances / matched literals point before the start of the new dictionary
+            use crate::build::{lzma2_chunk_header, L2State};
+            let lc = rng.gen_range(0..=4);
+            let p = Props { lc, lp: rng.gen_range(0..=(4 - lc)), pb: rng.gen_range(0..=4) };
+            let mut st = L2State::default();
+            let mut stream: Vec<u8> = vec![];
+            let n1 = rng.gen_range(1..40);
+            let mut prog = random_walk(&mut rng, &WalkCfg { nsyms: n1, props: p, max_dist: 4096, lit_alphabet: 9 });
+            prog.push(Sym::Lit { b: 1 });
+            prog.push(Sym::Lit { b: 2 });
+            prog.push(Sym::Match { d: 2, n: rng.gen_range(2..30) });
+            stream.extend_from_slice(&st.push(&Chunk::Lzma { class: 3, props: Some(p), prog }).bytes);
+            if rng.gen_bool(0.7) {
+                let k = rng.gen_range(1..4);
+                stream.extend_from_slice(&st.push(&Chunk::Raw { reset: true, data: vec![7; k] }).bytes);
+            }
+            // next chunk keeps state and reps: its first symbol is a literal (matched literal!), a short rep or a rep match
+            let first = match rng.gen_range(0..4) {
+                0 => Sym::Lit { b: 9 },
+                1 => Sym::Short,
+                2 => Sym::Rep { r: rng.gen_range(0..4), n: 3 },
+                _ => Sym::Match { d: rng.gen_range(1..20), n: 2 },
+            };
+            let class = rng.gen_range(0..2u8);
+            let ch = st.push(&Chunk::Lzma { class, props: None, prog: vec![first, Sym::Lit { b: 3 }, Sym::Lit { b: 4 }] });
+            let payload = ch.bytes[ch.payload_off..].to_vec();
+            let mut b = lzma2_chunk_header(class, rng.gen_range(1..6), payload.len(), None);
+            b.extend_from_slice(&payload);
+            stream.extend_from_slice(&b);
+            stream.push(0);
+            if rng.gen_bool(0.3) {
+                let f = XzFile { check: 1, blocks: vec![XzBlock { payload: stream.clone(), content: vec![], ..Default::default() }], ..Default::default() };
+                c.data = f.serialize().bytes;
+                c.api = "xz".into();
+            } else {
+                c.data = stream;
+                c.api = ["lzma2", "raw-lzma2"][rng.gen_range(0..2)].to_string();
+            }
+            c.family = "lzma2/state-carried-over-dict-reset".into();
         }
         _ => {
             // decompression "bomb": tiny input, big output (memory must follow the OUTPUT, not more)
